@@ -80,7 +80,7 @@ def _srcfn(name: str, params, doc_lines, body: str, g: dict):
     return ns[name]
 
 
-def specialise(prop: str, oid: str, fn, fixed: Dict[str, Sequence[Any]], reach_if=None, **meta):
+def specialise(prop: str, oid: str, fn, fixed: Dict[str, Sequence[Any]], reach_if=None, skip_if=None, **meta):
     """Register one obligation per combination of concrete values for the `fixed`
     parameters of `fn` (discrete structure is split over processes; every remaining
     parameter stays symbolic)."""
@@ -103,6 +103,8 @@ def specialise(prop: str, oid: str, fn, fixed: Dict[str, Sequence[Any]], reach_i
     out = []
     for combo in itertools.product(*(fixed[k] for k in keys)):
         fx = dict(zip(keys, combo))
+        if skip_if is not None and skip_if(fx):
+            continue
         suffix = "_".join(f"{k}{int(v) if isinstance(v, bool) else v}" for k, v in fx.items())
         g = dict(fn.__globals__)
         g.update(fx)
